@@ -17,6 +17,12 @@ def run(ctx):
                 if ctx.quick and cfg == "Gen_n2u" and i % 2:
                     continue
                 out.write(line)       # faulty systems included: both code strings must be empty for non-valid models
+    # models with external variables (incl. every state marked: an ODE model without states)
+    for cfg in (["GenX_n1"] if ctx.quick else ["GenX_n1", "GenX_n2"]):
+        part = ctx.gen("System", "Gen_Ext.tla", cfg + ".cfg", cfg, workers=8, timeout=3000, heap="12g")
+        with open(sysscen, "a") as out:
+            for line in open(part):
+                out.write(line)
     ctx.sample(sysscen, 2)
     strace = ctx.execute("system", sysscen, timeout_s=120)
     ctx.validate("System", "Trace_System.tla", "Trace_C17.cfg", strace, "system", parallel=12)
